@@ -2,11 +2,13 @@
    Only property theorems (closed by [exact]), non-vacuity examples and Print Assumptions.
    Model: Lib/Dag.v, Model/Dfs.v, Model/Tree.v; proofs: Proofs/DfsBase.v, Proofs/TreeInc.v, Proofs/DfsTopo.v, Proofs/TreeTopo.v, Proofs/DfsStable.v,
    Proofs/TreeAppend.v; rejected batches: Model/TreeReject.v, Proofs/TreeReject.v; order ids (the stored order): Model/OrderIds.v,
-   Model/OrderIdsQ.v, Proofs/OrderIdsFill.v, Proofs/OrderIdsTree.v, Proofs/OrderIds.v, Proofs/OrderIdsQ.v. *)
+   Model/OrderIdsQ.v, Proofs/OrderIdsFill.v, Proofs/OrderIdsTree.v, Proofs/OrderIds.v, Proofs/OrderIdsQ.v; several independent
+   trees over the shared pool of sort iterators, presentations in progress: Model/TreePool.v, Proofs/TreePool.v. *)
 From Coq Require Import List NArith Bool Arith Permutation QArith.
 Import ListNotations.
 From AnySync Require Import Lib.Dag Model.Dfs Model.Tree Model.TreeReject Proofs.DfsBase Proofs.TreeInc Proofs.DfsTopo Proofs.TreeTopo Proofs.DfsStable Proofs.TreeAppend Proofs.TreeReject.
 From AnySync Require Import Model.OrderIds Model.OrderIdsQ Proofs.OrderIdsFill Proofs.OrderIdsTree Proofs.OrderIds Proofs.OrderIdsQ.
+From AnySync Require Import Model.TreePool Proofs.TreePool.
 Open Scope N_scope.
 
 (* The canonical order (reverse post-order of the topSort DFS over id-sorted Next lists) is defined for every
@@ -408,3 +410,84 @@ Proof.
   - vm_compute. reflexivity.
   - vm_compute. reflexivity.
 Qed.
+
+(* ------------------------------------------------------------------------------------------------------------------
+   SEVERAL INDEPENDENT TREES, PRESENTATIONS IN PROGRESS (Model/TreePool.v).  All trees of a process share one pool of sort
+   iterators; the model has the heap of iterator buffers, the pool, and readers = presentations in progress that read the
+   HEAP at every step.  Traces = arbitrary flat interleavings of Tree.Add / Tree.AddFast on any tree, whole reads, and
+   POpen / PNext / PClose of any number of readers (nested use from consumer callbacks, goroutines blocked inside their
+   callbacks).  No hypotheses on the trace (ill-formed events are no-ops). *)
+
+(* Ownership: in every reachable state the iterators of the readers in progress are pairwise different, are not in the
+   pool, and still hold what was sorted into them when their reader was opened. *)
+Theorem c06_pool_iterators_owned : forall G evs, inv_pool (fst (prun false G p_init evs)).
+Proof. exact reachable_inv. Qed.
+Print Assumptions c06_pool_iterators_owned.
+
+(* Frame: the state of tree k after any trace is the state after the additions addressed to k alone (a history of
+   Tree.Add / Tree.AddFast calls from the empty tree, so every c06_ theorem about [run_ops] applies to it). *)
+Theorem c06_pool_tree_is_own_history : forall early G evs k,
+  tget (fst (prun early G p_init evs)) k = run_ops (ops_of G k evs).
+Proof. exact pool_tree_is_own_history. Qed.
+Print Assumptions c06_pool_tree_is_own_history.
+
+(* What a reader in progress is handed next is the next element of the sequence recorded when it was opened. *)
+Theorem c06_pool_next_is_recorded : forall G s r rd,
+  inv_pool s -> pget (p_readers s) r = Some rd ->
+  snd (pstep false G s (PNext r)) = OItem (nth_error (rd_seq rd) (rd_pos rd)).
+Proof. exact next_obs. Qed.
+Print Assumptions c06_pool_next_is_recorded.
+
+(* The presentation of a tree is a function of that tree's set alone: after ANY trace [pre], a reader opened on tree k
+   is handed the first change of L = the canonical order of what k holds (a function of the additions to k in [pre]),
+   from its start change on; and whatever trace [post] follows — reads of and additions to other trees or k itself,
+   other readers opened, stepped and closed — the changes handed to it by its PNext events are, in order, the following
+   elements of L (a prefix of the rest of L: all of it if the reader runs to the end, see the completeness gap in
+   notes/C06.md). *)
+Theorem c06_presentation_private : forall G pre r k from post,
+  let s := fst (prun false G p_init pre) in
+  let t := run_ops (ops_of G k pre) in
+  let L := iter_ids t in
+  pget (p_readers s) r = None ->
+  (t_att t <> [] -> L = order (t_att t) (t_root t)) /\
+  snd (pstep false G s (POpen r k from)) = OItem (nth_error L (find_pos from L)) /\
+  (forall x, nth_error L (find_pos from L) = Some x ->
+     exists rest,
+       skipn (S (find_pos from L)) L
+       = items_of r post (snd (prun false G (fst (pstep false G s (POpen r k from))) post)) ++ rest).
+Proof. exact presentation_private. Qed.
+Print Assumptions c06_presentation_private.
+
+(* Non-vacuity: tree 1 = 1 -> 2 -> {3,4} -> 5, tree 2 = a chain 21..26.  Reader 7 is opened on tree 1, then tree 2 is
+   read as a whole and grown, then the reader is stepped to its end: it is handed 1 2 3 4 5; the property predicate
+   accepts the trace.  With the iterator released before the walk ([early = true]: the buffer is given back to the pool
+   as soon as it is built) the same trace hands the reader changes of tree 2, and the predicate rejects it. *)
+Definition pool_G : list change :=
+  [mkChange 1 [] 0 true; mkChange 2 [1] 1 false; mkChange 3 [2] 1 false; mkChange 4 [2] 1 false; mkChange 5 [3; 4] 1 false;
+   mkChange 21 [] 0 true; mkChange 22 [21] 21 false; mkChange 23 [22] 21 false; mkChange 24 [23] 21 false;
+   mkChange 25 [24] 21 false; mkChange 26 [25] 21 false].
+Definition pool_pre : list pev :=
+  [PFast 1 [1]; PAdd 1 [2; 3; 4; 5]; PRead 1; PFast 2 [21]; PAdd 2 [22; 23; 24; 25]; PRead 2].
+Definition pool_post : list pev :=
+  [PRead 2; PNext 7; PAdd 2 [26]; PNext 7; PRead 2; PNext 7; PNext 7; PNext 7; PRead 1].
+Definition pool_trace : list pev := pool_pre ++ POpen 7 1 1 :: pool_post.
+
+Example c06_pool_nonvacuous :
+  pget (p_readers (fst (prun false pool_G p_init pool_pre))) 7 = None /\
+  t_att (run_ops (ops_of pool_G 1 pool_pre)) <> [] /\
+  iter_ids (run_ops (ops_of pool_G 1 pool_pre)) = [1; 2; 3; 4; 5] /\
+  items_of 7 pool_post
+    (snd (prun false pool_G (fst (pstep false pool_G (fst (prun false pool_G p_init pool_pre)) (POpen 7 1 1))) pool_post))
+  = [2; 3; 4; 5] /\
+  spec_C06_pool pool_G (combine pool_trace (snd (prun false pool_G p_init pool_trace))) = true.
+Proof.
+  split; [vm_compute; reflexivity|]. split; [vm_lhs; discriminate|].
+  split; [vm_compute; reflexivity|]. split; vm_compute; reflexivity.
+Qed.
+
+Example c06_pool_early_release_refuted :
+  items_of 7 pool_post
+    (snd (prun true pool_G (fst (pstep true pool_G (fst (prun true pool_G p_init pool_pre)) (POpen 7 1 1))) pool_post))
+  = [22; 23; 24; 25; 26] /\
+  spec_C06_pool pool_G (combine pool_trace (snd (prun true pool_G p_init pool_trace))) = false.
+Proof. split; vm_compute; reflexivity. Qed.
